@@ -113,6 +113,10 @@ func (this *Node) walk(topic format.Topic, iterator NodeIterator) {
 	topic, token := topic.Next()
 	if token == "" {
 		iterator(this.Data)
+		// a trailing "#" also matches its parent level
+		if n, ok := this.Children[MWC]; ok {
+			iterator(n.Data)
+		}
 		return
 	}
 
